@@ -74,6 +74,8 @@ struct Gen<'a, 'b> {
     nontrivial_br: bool,
     max_depth: usize,
     typed: usize,
+    /// the function has results: no bare `return`
+    has_results: bool,
 }
 
 impl<'a, 'b> Gen<'a, 'b> {
@@ -211,7 +213,7 @@ impl<'a, 'b> Gen<'a, 'b> {
                         out.push(Node::Leaf(Leaf::Drop));
                     }
                 }
-                12 => out.push(Node::Leaf(if self.ch.bool() { Leaf::Return } else { Leaf::Unreachable })),
+                12 => out.push(Node::Leaf(if self.ch.bool() && !self.has_results { Leaf::Return } else { Leaf::Unreachable })),
                 13 => {
                     // locals of other types: copy or initialise
                     let pool = if self.ch.bool() { self.i64_locals.clone() } else { self.f32_locals.clone() };
@@ -261,7 +263,7 @@ pub enum Exp {
 /// no values; sequences with a result are branch targets only when they are
 /// loops (label = params = none). To keep it simple the generator may pick a
 /// block-with-result as target; those picks are redirected to the function.
-fn flatten(nodes: &[Node], stack: &mut Vec<bool>, out: &mut Vec<Exp>) {
+fn flatten(nodes: &[Node], stack: &mut Vec<bool>, out: &mut Vec<Exp>, base: usize) {
     // stack[i] = "label of enclosing sequence i takes a value" (outermost first)
     for n in nodes {
         match n {
@@ -275,11 +277,11 @@ fn flatten(nodes: &[Node], stack: &mut Vec<bool>, out: &mut Vec<Exp>) {
                 Leaf::I32Eqz => out.push(Exp::Op("I32Eqz")),
                 Leaf::I64Const(k) => out.push(Exp::Const64(*k)),
                 Leaf::F32Const(k) => out.push(Exp::ConstF32(*k)),
-                Leaf::Br(t) => out.push(Exp::Br("Br", resolve(*t, stack))),
-                Leaf::BrIf(t) => out.push(Exp::Br("BrIf", resolve(*t, stack))),
+                Leaf::Br(t) => out.push(Exp::Br("Br", resolve(*t, stack, base))),
+                Leaf::BrIf(t) => out.push(Exp::Br("BrIf", resolve(*t, stack, base))),
                 Leaf::BrTable(ts, d) => out.push(Exp::BrTable(
-                    ts.iter().map(|t| resolve(*t, stack)).collect(),
-                    resolve(*d, stack),
+                    ts.iter().map(|t| resolve(*t, stack, base)).collect(),
+                    resolve(*d, stack, base),
                 )),
                 Leaf::Return => out.push(Exp::Op("Return")),
                 Leaf::Unreachable => out.push(Exp::Op("Unreachable")),
@@ -287,14 +289,14 @@ fn flatten(nodes: &[Node], stack: &mut Vec<bool>, out: &mut Vec<Exp>) {
             Node::Block(b, res) => {
                 out.push(Exp::Open("Block", *res));
                 stack.push(*res);
-                flatten(b, stack, out);
+                flatten(b, stack, out, base);
                 stack.pop();
                 out.push(Exp::Op("End"));
             }
             Node::Loop(b) => {
                 out.push(Exp::Open("Loop", false));
                 stack.push(false);
-                flatten(b, stack, out);
+                flatten(b, stack, out, base);
                 stack.pop();
                 out.push(Exp::Op("End"));
             }
@@ -302,16 +304,16 @@ fn flatten(nodes: &[Node], stack: &mut Vec<bool>, out: &mut Vec<Exp>) {
                 out.push(Exp::OpenSig(if *kind == 0 { "Block" } else { "Loop" }, *p, *r));
                 // a branch to a block carries its results, to a loop its parameters
                 stack.push(if *kind == 0 { *r > 0 } else { *p > 0 });
-                flatten(body, stack, out);
+                flatten(body, stack, out, base);
                 stack.pop();
                 out.push(Exp::Op("End"));
             }
             Node::IfElse(c, e, res) => {
                 out.push(Exp::Open("If", *res));
                 stack.push(*res);
-                flatten(c, stack, out);
+                flatten(c, stack, out, base);
                 out.push(Exp::Op("Else"));
-                flatten(e, stack, out);
+                flatten(e, stack, out, base);
                 stack.pop();
                 out.push(Exp::Op("End"));
             }
@@ -321,12 +323,16 @@ fn flatten(nodes: &[Node], stack: &mut Vec<bool>, out: &mut Vec<Exp>) {
 
 /// Relative depth actually used for a model target `t` (0 = innermost):
 /// if that label takes a value, the branch goes to the function instead.
-fn resolve(t: usize, stack: &[bool]) -> u32 {
+///
+/// `base` = index (from the outermost) of the outermost label a branch may
+/// go to: 0 = the function itself; 1 when the function has results (its label
+/// takes values), in which case the whole body sits in a wrapper block.
+fn resolve(t: usize, stack: &[bool], base: usize) -> u32 {
     let n = stack.len();
-    let t = t.min(n - 1);
+    let t = t.min(n - 1 - base);
     let idx = n - 1 - t;
     if stack[idx] {
-        (n - 1) as u32
+        (n - 1 - base) as u32
     } else {
         t as u32
     }
@@ -355,6 +361,8 @@ struct Plan<'a, 'b> {
     /// construction: a nested sequence older than the one enclosing it)
     pool: Vec<(InstrSeqType, InstrSeqId)>,
     pooled: usize,
+    /// see `resolve`
+    base: usize,
     locals: Vec<LocalId>,
     positional: usize,
     dangling: usize,
@@ -373,7 +381,15 @@ fn seq_ty(res: bool) -> InstrSeqType {
 }
 
 fn sig_ty(types: &mut ModuleTypes, p: usize, r: usize) -> InstrSeqType {
-    InstrSeqType::new(types, &vec![ValType::I32; p], &vec![ValType::I32; r])
+    let (ps, rs) = (vec![ValType::I32; p], vec![ValType::I32; r]);
+    // both documented ways to obtain a sequence type: `new`, or `existing`
+    // with `new` as the fallback
+    if (p + r) % 2 == 0 {
+        if let Some(t) = InstrSeqType::existing(types, &ps, &rs) {
+            return t;
+        }
+    }
+    InstrSeqType::new(types, &ps, &rs)
 }
 
 /// sequence types of all nested sequences of the model, children first
@@ -428,10 +444,10 @@ impl<'a, 'b> Plan<'a, 'b> {
 
     fn target(&self, t: usize, ids: &[InstrSeqId], res: &[bool]) -> InstrSeqId {
         let n = ids.len();
-        let t = t.min(n - 1);
+        let t = t.min(n - 1 - self.base);
         let idx = n - 1 - t;
         if res[idx] {
-            ids[0]
+            ids[self.base]
         } else {
             ids[idx]
         }
@@ -731,6 +747,11 @@ pub fn build_case(bytes: &[u8]) -> BuiltCase {
             .collect()
     };
     let (i64_locals, f32_locals) = (of(ValType::I64), of(ValType::F32));
+    // a third of the functions have one or two i32 results: the body then
+    // sits in a wrapper block (the outermost label branches may go to) and
+    // is followed by the result constants
+    let n_results = if ch.chance(1, 3) { 1 + ch.below(2) } else { 0 };
+    let base = if n_results > 0 { 1 } else { 0 };
     let mut g = Gen {
         ch: &mut ch,
         i64_locals,
@@ -740,19 +761,27 @@ pub fn build_case(bytes: &[u8]) -> BuiltCase {
         nontrivial_br: false,
         max_depth: 1,
         typed: 0,
+        has_results: n_results > 0,
     };
     let mut body = Vec::new();
-    g.stmts(1, &mut body);
+    g.stmts(1 + base, &mut body);
+    if n_results > 0 {
+        let mut wrapped = vec![Node::Block(body, false)];
+        for k in 0..n_results {
+            wrapped.push(Node::Leaf(Leaf::I32Const(100 + k as i32)));
+        }
+        body = wrapped;
+    }
     let (depth, nontrivial_br, typed) = (g.max_depth, g.nontrivial_br, g.typed);
     let mut expected = Vec::new();
-    flatten(&body, &mut vec![false], &mut expected);
+    flatten(&body, &mut vec![false], &mut expected, base);
     expected.push(Exp::Op("End"));
 
     // construction
     let mut module = Module::default();
     let locals: Vec<LocalId> = local_types.iter().map(|t| module.locals.add(*t)).collect();
     let args: Vec<LocalId> = locals[..n_params].to_vec();
-    let mut fb = FunctionBuilder::new(&mut module.types, &param_tys, &[]);
+    let mut fb = FunctionBuilder::new(&mut module.types, &param_tys, &vec![ValType::I32; n_results]);
     let entry = fb.func_body_id();
     // inside-out construction: some nested sequences exist before the
     // sequences that will enclose them
@@ -771,6 +800,7 @@ pub fn build_case(bytes: &[u8]) -> BuiltCase {
         types: &mut module.types,
         pool,
         pooled: 0,
+        base,
         locals,
         positional: 0,
         dangling: 0,
